@@ -65,7 +65,7 @@ impl FrameStore {
             return None;
         }
         let idx = usize::try_from(seq - self.base_seq).ok()?;
-        if idx >= len {
+        if self.frames.get(idx)?.seq != seq {
             return None;
         }
         Some(idx)
